@@ -18,6 +18,7 @@ func init() {
 			ruleA3(c)
 			ruleA4(c)
 			ruleA5(c)
+			ruleF1(c)
 		},
 		explanation: "Decides the gatekeeping structure of registration: in RegisterPlugin (for external plugins) the success report is dominated by the non-empty-name test and by a successful CheckPluginIndex, every failure reports a non-nil error on the registration channel and returns one; CheckPluginIndex returns nil only on paths whose branch conditions imply length 2 and two ASCII digits (decided by interval reasoning over the conditions); the registration channel has capacity >= 1 at every construction site; start waits in a select over the registration result, the connection-closed channel and a timer of the registration timeout, and its timeout branch closes and stops the plugin and returns an error; configure stores the plugin's event mask only after rejecting bits outside ValidEvents; the accept loop reaches the activation only through the success branches of connection set-up, start and synchronization and every failure continues with the next connection; the listener is only created when external connections are enabled and the socket directory is created with a mode that has no group/other bits.",
 		notDecided: []string{
